@@ -501,6 +501,37 @@ pub fn c_hashn_concrete<S: Src>(s: &mut S) {
     }
 }
 
+/// BOUNDED (one 40-base string, two slices of fixed length 6 at symbolic offsets and strands): slice equality holds
+/// exactly when the two views spell the same bases. Fallback counterexample harness for `PartialEq for DnaStringSlice`.
+pub fn c_slice_eq_b<S: Src>(s: &mut S) {
+    let (w, _len) = fixed_dna(s, 40);
+    let d = DnaString { storage: w, len: 40 };
+    let a = s.usize();
+    let b = s.usize();
+    s.assume(a <= 34 && b <= 34);
+    let ra = s.bool();
+    let rb = s.bool();
+    s.cover(a == b && ra != rb);
+    let mut sa = d.slice(a, a + 6);
+    let mut sb = d.slice(b, b + 6);
+    if ra {
+        sa = crate::Mer::rc(&sa);
+    }
+    if rb {
+        sb = crate::Mer::rc(&sb);
+    }
+    let mut same = true;
+    let mut i = 0;
+    while i < 6 {
+        if crate::Mer::get(&sa, i) != crate::Mer::get(&sb, i) {
+            same = false;
+        }
+        i += 1;
+    }
+    chk!(s, (sa == sb) == same, "slice == holds exactly when the two views spell the same bases");
+}
+
+harness!(d_slice_eq_b, c_slice_eq_b, unwind 10);
 harness!(d_hashn_concrete, c_hashn_concrete, unwind 40);
 harness!(d_get_kmer_b_k64, c_get_kmer_b::<crate::kmer::Kmer64, _>, unwind 40);
 harness!(d_get_kmer_b_k48, c_get_kmer_b::<crate::kmer::Kmer48, _>, unwind 40);
@@ -524,6 +555,7 @@ pub fn replay(name: &str, s: &mut crate::verif::src::RSrc) -> bool {
         "d_extend_b_32_1" => c_extend_b::<_, 32, 1>(s),
         "d_rc_reverse_b_33" => c_rc_reverse_b::<_, 33>(s),
         "d_rc_reverse_b_64" => c_rc_reverse_b::<_, 64>(s),
+        "d_slice_eq_b" => c_slice_eq_b(s),
         "d_hashn_concrete" => c_hashn_concrete(s),
         "d_get_kmer_b_k64" => c_get_kmer_b::<crate::kmer::Kmer64, _>(s),
         "d_get_kmer_b_k48" => c_get_kmer_b::<crate::kmer::Kmer48, _>(s),
